@@ -31,13 +31,17 @@ type budgetExceeded struct{ steps int }
 
 func isEngineSignal(p interface{}) bool {
 	switch p.(type) {
-	case pathAbort, inconclusive, budgetExceeded, engineBug:
+	case pathAbort, inconclusive, budgetExceeded, engineBug, targetFatal:
 		return true
 	}
 	return false
 }
 
 type engineBug struct{ msg string }
+
+// targetFatal: the real program dies with an unrecoverable runtime fatal error
+// (stack overflow); no recover() of the program under test may intercept it.
+type targetFatal string
 
 func unsupported(format string, a ...interface{}) {
 	panic(inconclusive{fmt.Sprintf(format, a...)})
